@@ -49,6 +49,20 @@ CHECKS = {
         "numpy/math elementary functions trusted; speed interval read as (0,1] after rounding; exponential law via the inverse-CDF identity.",
         "DESIGN.md §4 C07",
     ),
+    "C08": (
+        "exploration",
+        "Hypothesis property-based metamorphic testing of EAS.__call__: four related runs per generated case (525 km reference, detector altitude, area/QE/threshold, lower threshold) tied by the stated laws; kernel entry observed through a spy on the public attribute; thresholds placed relative to generated signals (ratios around 2 and sqrt(e))",
+        "Inverse-square law against straight-line distances (2e-6 plus a stated float32 rounding model), bit-identity of the Cherenkov angle, exact PE product, exact range cut with proof of non-simulation, effective-cone formula recomputed from the kernel's own angle. Evidence, not proof.",
+        "dask run synchronously (schedule independence is C10); detector altitudes >= 21 km.",
+        "DESIGN.md §4 C08",
+    ),
+    "C09": (
+        "exploration",
+        "Hypothesis property-based testing: cloud tops generated relative to each event's own segment list (bit-identity / exact zero / differential against the independent float64 model with the light below the cloud removed, float32 path and float64 hook); validity predicate for the pressure-map lookup against maps read directly with astropy.io.fits and an independent 1976 atmosphere; spy on the cloud call-back for the event site",
+        "Kernel cloud logic compared at C06 tolerances (float32) and 1e-9 (float64 hook); all three cloud models over the whole sphere and all 12 months. One known finding (float32 path, cloud tops above 37.5 km) is excluded by construction from the float32 comparison only and re-demonstrated on every run. Evidence, not proof.",
+        "bracketing-node predicate accepts floor/ceil/nearest cell conventions; astropy.io.fits trusted.",
+        "DESIGN.md §4 C09",
+    ),
     "C18": (
         "exploration",
         "Hypothesis property-based testing: byte-level write/read round trips in HDF5 and FITS over generated grids, slice and row-interpolation checks against own scalar references; exhaustive enumeration of every node of the shipped tables against the samplers' preconditions",
